@@ -7,7 +7,7 @@ CORR = "Corr.C01"
 REQUIRES = ["Gen.Handlers", "Model.Run", "Spec.Run", "Spec.C01"]
 PROOF_FILES = ["Proof/RunCore.v", "Proof/RunExtra.v", "Proof/RunTable.v", "Proof/RunVerdict.v", "Proof/C01.v"]
 MANIFEST = {
-    "text": "Coq theorems over all finite test programs (any nesting of cleanup registration, any exceptions incl. "
+    "text": "Coq theorems over all finite test programs and all histories of earlier runs of the same instance (any nesting of cleanup registration, any exceptions incl. "
             "nested/empty MultipleExceptions, KeyboardInterrupt/SystemExit, user subclasses, expectThat/force_failure, "
             "skip and expectedFailure decorators, missing upcalls, fixtures) and all seven result flavours about a "
             "hand-written Gallina model of RunTest/TestCase.run: the delivered calls are startTest, exactly one "
@@ -32,10 +32,14 @@ RULE = ("programs = setUp/test/tearDown bodies over statements (raise any of ~25
         "skip/expectedFailure decorators, missing upcalls and inserted handlers for Exception-derived classes, each run "
         "against one of 7 result flavours; exhaustive: every assignment of 10 behaviours to setUp/test/tearDown/0-1(2) "
         "cleanups; random: nested registration to depth 3; non-trivial = at least 2 raising statements, or a "
-        "non-Exception exception, or a nested cleanup; distinct = distinct JSON; plus @unittest.expectedFailure tests whose body ends in every behaviour (incl. SystemExit / KeyboardInterrupt passing through the wrapper) with later stages raising, force_failure set on the failed-setUp path, fixtures with an unevaluable detail")
+        "non-Exception exception, or a nested cleanup; distinct = distinct JSON; histories: the observed run is preceded by 0-3 "
+        "runs of the SAME instance with per-run scripted stages (every pair of behaviours in test/tearDown/setUp + cleanup, then a "
+        "passing / failing / skipping / interrupted run; random histories), decorators fixed per class; plus @unittest.expectedFailure tests whose body ends in every behaviour (incl. SystemExit / KeyboardInterrupt passing through the wrapper) with later stages raising, force_failure set on the failed-setUp path, fixtures with an unevaluable detail")
 TRUSTED = ["the result doubles of testtools.testresult.doubles and a logging testtools.TestResult subclass are the "
            "observation devices", "fixtures.Fixture setUp/cleanUp (fixtures 4.3.2) is modelled, not verified"]
 ASSUMPTIONS = ["the result object and addOnException handlers do not raise",
+               "in a history of runs of one instance the skip / expectedFailure decorators are the same in every run (they "
+               "belong to the class) and the handlers put in front of exception_handlers before the first run are kept",
                "user-inserted exception handlers are for Exception-derived classes (others: C03)",
                "fixtures raise single exceptions; new-style _setUp and fixture cleanups raise Exception-derived ones"]
 EXPLANATION = ("Theorems in coq/Props/C01.v over all programs and flavours; correspondence: TestCase.run of a "
@@ -47,7 +51,8 @@ FEATS_INS = frozenset(["insert", "onexc", "fixture"])      # handlers for Except
 
 
 def drive(case):
-    o = R.run_program(case["prog"], case["flavour"])[0]
+    # the instance first goes through the earlier runs of its history; the observation is that of the last run
+    o = R.run_history(list(case.get("prev", [])) + [case["prog"]], case["flavour"])[-1]
     evs = [[e[0], e[1]] if e[0] == "out" else [e[0]] for e in o["trace"] if e[0] != "H"]
     return {"events": evs, "raised": o["raised"], "ran": [e[1] for e in o["log"] if e[0] == "t"]}
 
@@ -64,7 +69,8 @@ def t_ev(e):
 
 
 def term(case, o):
-    i = q.record([("i_prog", R.t_prog(case["prog"])), ("i_flavour", case["flavour"])])
+    i = q.record([("i_prev", q.lst([R.t_prog(p) for p in case.get("prev", [])])), ("i_prog", R.t_prog(case["prog"])),
+                  ("i_flavour", case["flavour"])])
     ob = q.record([("o_events", q.lst([t_ev(e) for e in o["events"]])), ("o_raised", RK[o["raised"]]),
                    ("o_ran", q.lst([q.nat(t) for t in o["ran"]]))])
     return q.pair(i, ob)
@@ -79,7 +85,7 @@ def perturb(case, o):
 def nontrivial(case):
     p = case["prog"]
     import json
-    s = json.dumps(p)
+    s = json.dumps([p] + list(case.get("prev", [])))
     return (len(R.raising_acts(p)) >= 2 or any(x in s for x in ('"Kbd"', '"SysExit"', '"GenExit"', '"BaseException"'))
             or max(R.depth(a) for a in R.stages(p)) >= 2)
 
@@ -93,6 +99,40 @@ def _exception_handlers_only(p):
         return c in ("Kbd", "SysExit", "GenExit", "BaseException")
     assert not any(a[0] == "inserthandler" and base(a[1]) for a in R.all_acts(p))
     return dict(p, handlers=[h for h in p["handlers"] if not base(h[0])])
+
+
+def history(prev, prog, flavour):
+    """a case whose instance has already run the programs of `prev` (oldest first).  The decorators belong to the
+    class, so every run has the ones of the observed program; the handlers present before the first run are
+    those of the first program."""
+    prev = [dict(p, skip=prog["skip"], xfail=prog["xfail"]) for p in prev]
+    return {"prev": prev, "prog": prog, "flavour": flavour}
+
+
+def history_programs():
+    """runs of one instance after an earlier run of it caught two exceptions (every pair of behaviours in the test
+    and in a cleanup, in tearDown and in a cleanup, in setUp and in a cleanup - among them every way of being
+    interrupted with something else caught too), followed by a run that passes / fails / skips / is interrupted"""
+    E = R.E
+    follow = [R.mkprog(setup=[["cleanup", 10, []]]), R.mkprog(setup=[["cleanup", 10, []]], body=[["raise", E("Fail")]]),
+              R.mkprog(setup=[["cleanup", 10, []]], body=[["raise", E("Skip", 1)]]),
+              R.mkprog(setup=[["cleanup", 10, [["raise", E("SysExit")]]]], teardown=[["raise", E("ValueError")]])]
+    k = 0
+    for a in R.BEHAVIOURS:
+        for b in R.BEHAVIOURS:
+            firsts = [R.mkprog(setup=[["cleanup", 10, list(R.ALLB[b])]], body=list(R.ALLB[a])),
+                      R.mkprog(setup=[["cleanup", 10, list(R.ALLB[b])]], teardown=list(R.ALLB[a])),
+                      R.mkprog(setup=[["cleanup", 10, list(R.ALLB[b])]] + list(R.ALLB[a]))]
+            for f in firsts:
+                k += 1
+                yield [f], follow[k % 4], (a, b)
+    # longer histories: interrupted, then failing with the flag set, then passing
+    yield [R.mkprog(body=[["raise", E("Kbd")]], teardown=[["raise", E("ValueError")]]),
+           R.mkprog(body=[["expect", []], ["inserthandler", "ValueError", "skip"]])], follow[0], ("kbd+error", "expect")
+    yield [follow[3], follow[3]], follow[0], ("sysexit", "sysexit")
+    yield [R.mkprog(body=[["raise", R.M(E("ValueError"), E("Kbd"), E("Fail"))]])], follow[2], ("multi", "skip")
+    yield [R.mkprog(xfail=True, body=[["raise", E("SysExit")]], teardown=[["raise", E("Fail")]])], \
+        R.mkprog(xfail=True, body=[["raise", E("Fail")]]), ("xfail-sysexit", "xfail")
 
 
 def generate(rng, tier):
@@ -138,6 +178,14 @@ def generate(rng, tier):
     for k, (p, _) in enumerate(R.xfail_programs()):
         for f in (R.FLAVOURS if tier == "thorough" else [R.FLAVOURS[k % 7]]):
             cases.append({"prog": p, "flavour": f})
+    # one instance run repeatedly with different things happening per run: every run is bracketed, reports once,
+    # and raises exactly when THAT run was interrupted
+    for k, (prev, p, _) in enumerate(history_programs()):
+        for f in (R.FLAVOURS if tier == "thorough" else [R.FLAVOURS[k % 7]]):
+            cases.append(history(prev, p, f))
+    for k, p in enumerate(fixed):
+        cases.append(history([p], R.mkprog(skip=p["skip"], xfail=p["xfail"]), R.FLAVOURS[k % 7]))
+        cases.append(history([p, p], p, R.FLAVOURS[(k + 2) % 7]))
     # bounded-exhaustive core
     k = 0
     for p, combo in R.core_programs(max_cleanups=0):
@@ -184,19 +232,37 @@ def generate(rng, tier):
         p = _exception_handlers_only(R.rand_prog(rng, feats=rng.choice([FEATS, frozenset(), frozenset(), FEATS_INS]),
                                                  p_raise=rng.choice([0.3, 0.5, 0.8])))
         cases.append({"prog": p, "flavour": rng.choice(R.FLAVOURS)})
+    # random histories: 1-3 earlier runs of random programs on the same instance
+    r2 = __import__("random").Random(rng.random())
+    for _ in range(500 if tier == "quick" else 12000):
+        progs = [_exception_handlers_only(R.rand_prog(r2, feats=r2.choice([FEATS, frozenset(), FEATS_INS]),
+                                                      depth=2, p_raise=r2.choice([0.5, 0.8])))
+                 for _ in range(r2.choice([2, 2, 3, 4]))]
+        cases.append(history(progs[:-1], progs[-1], r2.choice(R.FLAVOURS)))
     return cases
 
 
 def shrink(case):
+    prev = list(case.get("prev", []))
+    for k in range(len(prev)):
+        yield history(prev[:k] + prev[k + 1:], case["prog"], case["flavour"])
     for p in R.shrink_prog(case["prog"]):
-        yield {"prog": p, "flavour": case["flavour"]}
+        if p["skip"] == case["prog"]["skip"] and p["xfail"] == case["prog"]["xfail"] or not prev:
+            yield history(prev, p, case["flavour"])
+    for k, pk in enumerate(prev):
+        for p in R.shrink_prog(pk):
+            if p["skip"] == pk["skip"] and p["xfail"] == pk["xfail"]:
+                yield history(prev[:k] + [p] + prev[k + 1:], case["prog"], case["flavour"])
     if case["flavour"] != "FExtended":
-        yield {"prog": case["prog"], "flavour": "FExtended"}
+        yield history(prev, case["prog"], "FExtended")
 
 
 def distribution(cases):
     d = R.prog_distribution([c["prog"] for c in cases])
     d["flavour"] = {}
+    d["earlier_runs_of_the_instance"] = {}
     for c in cases:
         d["flavour"][c["flavour"]] = d["flavour"].get(c["flavour"], 0) + 1
+        n = len(c.get("prev", []))
+        d["earlier_runs_of_the_instance"][n] = d["earlier_runs_of_the_instance"].get(n, 0) + 1
     return d
